@@ -86,6 +86,18 @@ def main() -> int:
                 res = mod.run_impl_only(ctx)
         except Exception:
             traceback.print_exc()
+    except Exception as e:  # noqa: BLE001
+        # the harness itself could not complete on this tree (an implementation that behaves in a way the harness has no
+        # answer for -- e.g. an unexpected exception out of the code under test).  That is a correspondence that no
+        # longer checks, not a pass: it is reported, after one more attempt without the model.
+        tb = traceback.format_exc()
+        broken.append(f"harness could not complete on this tree: {type(e).__name__}: {e}\n{tb[-1500:]}"[:2500])
+        try:
+            ctx.deep = True
+            if hasattr(mod, "run_impl_only"):
+                res = mod.run_impl_only(ctx)
+        except Exception:
+            traceback.print_exc()
     for d in res.disagreements[:1]:
         broken.append("correspondence: model and implementation differ on " + json.dumps(C.jsonable(d))[:1200])
     known = C.load_findings(prop)
